@@ -3,10 +3,12 @@ package props
 import (
 	"context"
 	"fmt"
+	"io/fs"
 	"os"
 	"path/filepath"
 	"strings"
 	"sync"
+	"sync/atomic"
 	"testing"
 	"testing/synctest"
 	"time"
@@ -40,6 +42,10 @@ type MultiScenario struct {
 	// TinyFree: free-running sessions on pipes of a few bytes with output
 	// options: a timeout (twice) is a deadlock, not harness trouble
 	TinyFree bool `json:"tiny_free,omitempty"`
+	// ClosableFS: the read-only module is backed by an fs.FS that also has a
+	// Close method (as an archive- or network-backed FS would): whatever one
+	// session does to it at its end must not affect the sessions still running.
+	ClosableFS bool `json:"closable_fs,omitempty"`
 }
 
 type C18Scenario struct {
@@ -141,7 +147,8 @@ func (c18) Generate(seed uint64, tier string, index int) any {
 			return &C18Scenario{Mode: "multi", Multi: ms}
 		}
 		ms.Tr = g.TransportFor(12, int64(n)*2*treeBytes(&ms.Src))
-		if !race && g.R.Intn(3) == 0 {
+		ms.ClosableFS = !race && g.R.Intn(5) == 0
+		if !race && !ms.ClosableFS && g.R.Intn(3) == 0 {
 			// truly concurrent handlers (the scheduled mode runs one party at a
 			// time between transport operations): many directories to create,
 			// several uploads of identical content to the identical fresh target
@@ -430,7 +437,7 @@ func runMulti(t *testing.T, ms *MultiScenario, lay Layout, res *Result) {
 		return
 	}
 	// solo references: one pull and one push, each alone
-	solo := &MultiScenario{Src: ms.Src, Tr: ms.Tr, Free: ms.Free, Sessions: []MSess{
+	solo := &MultiScenario{Src: ms.Src, Tr: ms.Tr, Free: ms.Free, ClosableFS: ms.ClosableFS, Sessions: []MSess{
 		{Kind: "pull", CapCS: kernel.Unbounded, CapSC: kernel.Unbounded, Opts: ms.Sessions[0].Opts},
 	}}
 	solo.Tr.Tape = nil
@@ -575,7 +582,7 @@ func execMulti(t *testing.T, ms *MultiScenario, lay Layout, rw string) (out *mul
 		defer cancel()
 		slog := &lockedBuf{max: 1 << 20}
 		srv, err := rsyncd.NewServer([]rsyncd.Module{
-			{Name: "ro", Path: lay.Src},
+			roModule(ms, lay),
 			{Name: "rw", Path: rw, Writable: true},
 		}, rsyncd.WithStderr(slog), rsyncd.DontRestrict())
 		if err != nil {
@@ -662,6 +669,43 @@ func multiClientFn(ctx context.Context, s MSess, i int, lay Layout, conn rwc) fu
 	}
 }
 
+// closableFS is a directory-backed fs.FS with a Close method; once closed it
+// has no files any more.
+type closableFS struct {
+	fs.FS
+	closed atomic.Bool
+}
+
+func (c *closableFS) Open(name string) (fs.File, error) {
+	if c.closed.Load() {
+		return nil, &fs.PathError{Op: "open", Path: name, Err: fs.ErrNotExist}
+	}
+	return c.FS.Open(name)
+}
+
+func (c *closableFS) Close() error { c.closed.Store(true); return nil }
+
+func (c *closableFS) ReadLink(name string) (string, error) {
+	if c.closed.Load() {
+		return "", &fs.PathError{Op: "readlink", Path: name, Err: fs.ErrNotExist}
+	}
+	return c.FS.(fs.ReadLinkFS).ReadLink(name)
+}
+
+func (c *closableFS) Lstat(name string) (fs.FileInfo, error) {
+	if c.closed.Load() {
+		return nil, &fs.PathError{Op: "lstat", Path: name, Err: fs.ErrNotExist}
+	}
+	return c.FS.(fs.ReadLinkFS).Lstat(name)
+}
+
+func roModule(ms *MultiScenario, lay Layout) rsyncd.Module {
+	if ms.ClosableFS {
+		return rsyncd.Module{Name: "ro", FS: &closableFS{FS: os.DirFS(lay.Src)}}
+	}
+	return rsyncd.Module{Name: "ro", Path: lay.Src}
+}
+
 // stallingConn stops reading for good after limit bytes (a stalled peer).
 type stallingConn struct {
 	rwc
@@ -688,7 +732,7 @@ func execMultiFree(ms *MultiScenario, lay Layout, rw string, out *multiOut) {
 	defer cancel()
 	slog := &lockedBuf{max: 1 << 20}
 	srv, err := rsyncd.NewServer([]rsyncd.Module{
-		{Name: "ro", Path: lay.Src},
+		roModule(ms, lay),
 		{Name: "rw", Path: rw, Writable: true},
 	}, rsyncd.WithStderr(slog), rsyncd.DontRestrict())
 	if err != nil {
